@@ -118,6 +118,7 @@ func factory(raw json.RawMessage) (seqx.System, error) {
 		{"C:bbolt/cache-disabled", sl.InstCfg{Backend: "bbolt", CacheSize: 0, Schema: sc, Proxy: true}},
 		{"D:bbolt/reopened-after-every-batch", sl.InstCfg{Backend: "bbolt", CacheSize: -1, Schema: sc, Proxy: true}},
 		{"E:memstore", sl.InstCfg{Backend: "mem", CacheSize: -1, Schema: sc}},
+		{"F:memstore/cache-disabled", sl.InstCfg{Backend: "mem", CacheSize: 0, Schema: sc}},
 	} {
 		in, err := sl.NewInst(mc.cfg)
 		if err != nil {
@@ -398,7 +399,7 @@ func (s *system) Close() {
 }
 
 func master(cfg *harness.Config, rep *harness.Report) {
-	rep.Rule = "every write history up to the depth over the union of the point / filter / flat / text / graph write alphabets on a nine-index schema (without quantiser, with a learned binary quantiser, with a product quantiser trained at 3 points: each instance learns its own centroids and is compared with its own read-back reference), executed in lock-step on five instances: bbolt with unlimited, 1-byte and disabled shared cache, bbolt closed and reopened with a fresh cache manager after every batch, and memstore (successful batches only). After every batch every instance answers the whole battery (reads by id, select-all, raw point store, ~100 filter queries, exact flat k-NN on two indexes, text tf-idf, graph search safety + exact regimes, graph well-formedness) and must equal the reference model, hence each other; whether a quantiser has been trained (and the binary quantiser's learned threshold) must be the same on all instances; a `queries` step between batches warms the caches inside a history; on the reopened instance the bucket dump before close, after reopen and after the queries must be identical"
+	rep.Rule = "every write history up to the depth over the union of the point / filter / flat / text / graph write alphabets on a nine-index schema (without quantiser, with a learned binary quantiser, with a product quantiser trained at 3 points: each instance learns its own centroids and is compared with its own read-back reference), executed in lock-step on six instances: bbolt with unlimited, 1-byte and disabled shared cache, bbolt closed and reopened with a fresh cache manager after every batch, and memstore with unlimited and with disabled cache (successful batches only). After every batch every instance answers the whole battery (reads by id, select-all, raw point store, ~100 filter queries, exact flat k-NN on two indexes, text tf-idf, graph search safety + exact regimes, graph well-formedness) and must equal the reference model, hence each other; whether a quantiser has been trained (and the binary quantiser's learned threshold) must be the same on all instances; a `queries` step between batches warms the caches inside a history; on the reopened instance the bucket dump before close, after reopen and after the queries must be identical"
 	rep.Assumptions = []string{"approximate graph answers outside the exact regimes are not compared across instances (entry vector and reuse order are random)", "bbolt commit atomicity and fsync are trusted"}
 	p := pool.New(pool.Options{CPUsPerWorker: 2, JobTimeout: 120 * time.Second})
 	syms := symbols()
